@@ -905,3 +905,218 @@ Proof.
   eapply parts_settled_within; eassumption.
 Qed.
 End Final.
+
+(* =================================================================================================================================== *)
+(* Part 6: from resolution to the settled book, one bound                                                                               *)
+(* =================================================================================================================================== *)
+Inductive sub : list Z -> list Z -> Prop :=
+| sub_nil : sub [] []
+| sub_keep a l' l : sub l' l -> sub (a :: l') (a :: l)
+| sub_drop a l' l : sub l' l -> sub l' (a :: l).
+
+Lemma sub_refl l : sub l l. Proof. induction l; constructor; assumption. Qed.
+Lemma sub_in l' l : sub l' l -> forall m, In m l' -> In m l.
+Proof. intros S. induction S; intros m Hm; [destruct Hm|destruct Hm as [->|Hm]; [left; reflexivity|right; apply IHS; exact Hm]|right; apply IHS; exact Hm]. Qed.
+Lemma sub_app l' l c : sub l' l -> sub (l' ++ c) (l ++ c).
+Proof. intros S. induction S; cbn [app]; [apply sub_refl|constructor; assumption|constructor; assumption]. Qed.
+Lemma sub_trans a b c : sub a b -> sub b c -> sub a c.
+Proof.
+  intros S1 S2. revert a S1. induction S2; intros a0 S1.
+  - exact S1.
+  - inversion S1; subst; [constructor; apply IHS2; assumption|apply sub_drop; apply IHS2; assumption].
+  - apply sub_drop. apply IHS2. exact S1.
+Qed.
+
+Lemma ahead_sub f' f l' l m : sub l' l -> (forall h, 0 <= f' h <= f h) -> NoDup l -> In m l' -> ahead f' l' m <= ahead f l m.
+Proof.
+  intros S Hf. induction S; intros Hnd Hm; [destruct Hm| |].
+  - inversion Hnd; subst. cbn [ahead]. pose proof (Hf a). destruct (Z.eqb_spec a m) as [E|Hne]; [lia|].
+    destruct Hm as [E|Hm]; [contradiction|]. specialize (IHS H2 Hm). lia.
+  - inversion Hnd; subst. cbn [ahead]. pose proof (Hf a). destruct (Z.eqb_spec a m) as [E|Hne].
+    + exfalso. subst a. apply H1. apply (sub_in _ _ S). exact Hm.
+    + specialize (IHS H2 Hm). lia.
+Qed.
+
+(* the order-book end blocker only takes books off the queue and only pays participations *)
+Lemma ob_endblock_sub fuel : forall s n s', ob_endblock fuel s n 0 = Some s' -> 0 <= n ->
+  sub (c_bqueue s') (c_bqueue s) /\ forall h, unpaid_of s' h <= unpaid_of s h.
+Proof.
+  induction fuel as [|f IH]; intros s n s' H Hn.
+  { cbn [ob_endblock] in H. destruct (n <=? 0); [|discriminate]. inv H. split; [apply sub_refl|intros; lia]. }
+  cbn [ob_endblock] in H. destruct (n <=? 0) eqn:En; [inv H; split; [apply sub_refl|intros; lia]|]. apply Z.leb_gt in En.
+  destruct (c_bqueue s) as [|m0 q] eqn:EQ; [cbn [nth_error] in H; inv H; rewrite EQ; split; [apply sub_refl|intros; lia]|].
+  cbn [nth_error] in H.
+  destruct (get_ms s m0) as [x|] eqn:Hg; [|discriminate].
+  destruct (negb (bk_status (ms_book x) =? BK_RESOLVED)); [discriminate|].
+  destruct (batch_parts (bk_parts (ms_book x)) (k_status (ms_mkt x)) (k_creator (ms_mkt x)) n 0) as [[[[alls cnt] ps] effs]|] eqn:EB; [|discriminate].
+  destruct (apply_effects (c_bank s) (c_subs s) effs) as [[bk1 subs1]|]; [|discriminate].
+  destruct (batch_parts_count _ _ _ _ _ _ _ _ _ EB En) as (C1 & C2 & C3 & C4 & C5).
+  match type of H with ob_endblock f ?st _ _ = _ => set (s1 := st) in * end.
+  assert (Hu1 : forall h, unpaid_of s1 h <= unpaid_of s h).
+  { intros h. unfold unpaid_of. destruct (Z.eq_dec h m0) as [->|Hne].
+    - erewrite (get_ms_set_same s s1 m0) by reflexivity. rewrite Hg. unfold unpaid. cbn [ms_book mstate_upd bk_parts book_upd].
+      fold (unsettled_cnt ps). fold (unsettled_cnt (bk_parts (ms_book x))). lia.
+    - erewrite (get_ms_set_other s s1 m0) by (try reflexivity; exact Hne). lia. }
+  destruct alls.
+  - assert (Hq1 : c_bqueue s1 = q) by (unfold s1; cbn [c_bqueue chain_upd]; unfold remove_uid; cbn [remove_first]; rewrite Z.eqb_refl; reflexivity).
+    destruct (IH s1 (n - cnt) s' H ltac:(lia)) as [S U]. rewrite Hq1 in S. split; [apply sub_drop; exact S|]. intros h. pose proof (U h). pose proof (Hu1 h). lia.
+  - pose proof (C4 eq_refl) as Hc. subst cnt. rewrite (ob_endblock_zero f s1 (n - n) 1%nat) in H by lia. injection H as Es. rewrite <- Es.
+    split; [apply sub_refl|exact Hu1].
+Qed.
+
+Lemma NoDup_app_iff_local (l1 l2 : list Z) : NoDup l1 -> NoDup l2 -> (forall m, In m l1 -> In m l2 -> False) -> NoDup (l1 ++ l2).
+Proof.
+  induction l1 as [|a r IH]; intros N1 N2 D; cbn [app]; [exact N2|]. inversion N1; subst. constructor.
+  - intros Hc. apply in_app_or in Hc. destruct Hc as [Hc|Hc]; [contradiction|apply (D a (or_introl eq_refl) Hc)].
+  - apply IH; [assumption|exact N2|]. intros m Hm1 Hm2. apply (D m (or_intror Hm1) Hm2).
+Qed.
+
+Section Bound.
+Variables (P : params) (bk : bank) (supply : Z) (vault : list Z) (MP : mparams) (t0 : Z) (sw sd : bool).
+Hypothesis HP : pr_bet_fee P <= pr_bet_min P.
+Hypothesis HF : 0 <= pr_bet_fee P.
+Hypothesis B1 : bget bk POOL = 0.
+Hypothesis B2 : bget bk HOUSEFEE = 0.
+Hypothesis B3 : bget bk BETFEE = 0.
+Hypothesis Hb : forall a, SUBBASE <= a -> 0 <= bget bk a.
+Hypothesis HM : mparams_valid MP = true.
+Hypothesis Hk : 0 < pr_bet_batch P.
+Hypothesis Hkb : 0 < pr_ob_batch P.
+
+Let s0 := init bk supply P vault MP t0 sw sd.
+
+(* unpaid participations queued up to and including m, over both queues read as one (payment queue first) *)
+Definition queued_parts (s : chain) (m : Z) : Z := ahead (unpaid_of s) (c_bqueue s ++ c_mqueue s) m.
+
+Definition stage (s : chain) (m : Z) (a1 a2 e : Z) : Prop :=
+  book_at_least BK_SETTLED s m \/
+  (In m (c_mqueue s) /\ bets_measure s m + pr_bet_batch P * e <= a1 /\ queued_parts s m <= a2) \/
+  (In m (c_bqueue s) /\ exists eA, pr_bet_batch P * eA <= a1 + pr_bet_batch P /\ eA <= e /\ parts_measure s m + pr_ob_batch P * (e - eA) <= a2).
+
+Lemma queues_disjoint s m : g2 s -> In m (c_mqueue s) -> ~ In m (c_bqueue s).
+Proof.
+  intros G Hm Hb'. destruct (i_mq _ (g_inv _ (g2_g1 _ G)) m Hm) as (x & Hx & _ & Ha). destruct (x_bq _ (g2_xinv _ G) m Hb') as (y & Hy & Hr).
+  rewrite Hx in Hy. inv Hy. rewrite Ha in Hr. discriminate.
+Qed.
+
+Lemma queues_nodup s : g2 s -> NoDup (c_bqueue s ++ c_mqueue s).
+Proof.
+  intros G. apply NoDup_app_iff_local; [apply (x_bq_nd _ (g2_xinv _ G))|apply (i_mq_nodup _ (g_inv _ (g2_g1 _ G)))|].
+  intros m Hb' Hm. exact (queues_disjoint s m G Hm Hb').
+Qed.
+
+Lemma stage_step s o m a1 a2 e : g2 s -> c_halted s = false -> c_prm s = P -> stage s m a1 a2 e ->
+  stage (fst (step s o)) m a1 a2 (e + match o with OEnd => 1 | _ => 0 end).
+Proof.
+  intros G Hh HPm [L|[(Hm & Hbm & Hq)|(Hm & eA & HeA & Hle & Hpm)]]; pose proof (g_inv _ (g2_g1 _ G)) as I.
+  - left. apply book_at_least_step; assumption.
+  - destruct (op_eq_end o) as [->|Hne].
+    + (* an end block while m waits for bet settlement *)
+      destruct (end_block_split P HP HF s G Hh) as (s1 & s2 & E1 & G2 & E2 & Es). rewrite Es. rewrite HPm in E1.
+      destruct (bet_endblock_ahead _ _ _ _ E1 (g2_qok s G) ltac:(lia)) as (_ & _ & A). destruct (A m Hm) as [_ A'].
+      destruct (bet_endblock_queues _ _ _ _ E1) as [Eq1 Eu1].
+      assert (Hau1 : queued_parts s1 m = queued_parts s m).
+      { unfold queued_parts. rewrite Eq1. apply ahead_ext. intros h _. apply Eu1. }
+      rewrite (bet_endblock_prm _ _ _ _ E1), HPm in E2.
+      destruct (ob_endblock_sub _ _ _ _ E2 ltac:(lia)) as [Sb Ub].
+      destruct (ob_endblock_pend _ _ _ _ _ E2) as [Q2 P2]. destruct (ovm_endblock_ms s2) as (O1 & O2 & O3).
+      destruct A' as [Mv|[Hin Ha]].
+      * (* moved to the payment queue in this block *)
+        destruct Mv as [Hb1 _].
+        assert (Epm : parts_measure s1 m = queued_parts s1 m) by (unfold parts_measure, queued_parts; symmetry; apply ahead_app_in; exact Hb1).
+        destruct (ob_endblock_ahead _ _ _ _ E2 (x_bq_nd _ (g2_xinv _ G2)) ltac:(lia)) as (_ & _ & _ & _ & A2). destruct (A2 m Hb1) as [_ [Pd|[Hin2 Ha2]]].
+        -- left. destruct Pd as (_ & x & Hx & Hs & _). exists x. split; [rewrite (get_ms_ext s2 (ovm_endblock s2) m O1); exact Hx|rewrite Hs; lia].
+        -- right. right. rewrite O3. split; [exact Hin2|]. exists (e + 1).
+           assert (Hbn : 0 <= bets_measure s m) by (apply ahead_nonneg; intros; apply pend_of_nonneg).
+           split; [rewrite Z.mul_add_distr_l, Z.mul_1_r; lia|]. split; [lia|].
+           unfold parts_measure at 1. rewrite O3.
+           rewrite (ahead_ext (unpaid_of (ovm_endblock s2)) (unpaid_of s2) (c_bqueue s2) m) by (intros h _; apply (unpaid_of_ext s2 (ovm_endblock s2) O1)).
+           fold (parts_measure s1 m) in Ha2. rewrite Ha2, Epm, Hau1. lia.
+      * (* still waiting: the bet measure went down by the batch size, the queued participations did not grow *)
+        right. left. rewrite O2, Q2. split; [exact Hin|]. split.
+        -- unfold bets_measure at 1. rewrite O2, Q2.
+           rewrite (ahead_ext (pend_of (ovm_endblock s2)) (pend_of s1) (c_mqueue s1) m) by (intros h _; rewrite (pend_of_ext s2 (ovm_endblock s2) O1); apply P2).
+           fold (bets_measure s m) in Ha. rewrite Ha. rewrite Z.mul_add_distr_l, Z.mul_1_r. lia.
+        -- unfold queued_parts. rewrite O3, O2, Q2.
+           rewrite (ahead_ext (unpaid_of (ovm_endblock s2)) (unpaid_of s2) _ m) by (intros h _; apply (unpaid_of_ext s2 (ovm_endblock s2) O1)).
+           assert (ahead (unpaid_of s2) (c_bqueue s2 ++ c_mqueue s1) m <= ahead (unpaid_of s1) (c_bqueue s1 ++ c_mqueue s1) m).
+           { apply ahead_sub; [apply sub_app; exact Sb|intros h; split; [apply unpaid_of_nonneg|apply Ub]|apply (queues_nodup s1 G2)|apply in_or_app; right; exact Hin]. }
+           fold (queued_parts s1 m) in H. lia.
+    + (* any other operation: nothing queued for m changes *)
+      right. left. destruct (step_qframe s o Hne) as [[new Q] Qb R _].
+      assert (Hsame : forall h, In h (c_bqueue s ++ c_mqueue s) -> unpaid_of (fst (step s o)) h = unpaid_of s h /\ pend_of (fst (step s o)) h = pend_of s h).
+      { intros h Hh'. assert (exists x, get_ms s h = Some x /\ resolvedb x = true) as (x & Hx & Rb).
+        { apply in_app_or in Hh'. destruct Hh' as [Hq'|Hq'].
+          - destruct (x_bq _ (g2_xinv _ G) h Hq') as (x & Hx & Hst). exists x. split; [exact Hx|].
+            pose proof (g_all _ (g2_g1 _ G) _ (get_ms_in _ _ _ Hx)) as Sx. cbn [snd] in Sx. apply status_res_resolvedb. apply (se_done _ Sx). rewrite Hst. discriminate.
+          - destruct (i_mq _ I h Hq') as (x & Hx & Hres & _). exists x. split; [exact Hx|apply status_res_resolvedb; exact Hres]. }
+        destruct (R h x Hx Rb) as (x' & Hx' & _ & W). unfold unpaid_of, pend_of. rewrite Hx, Hx'. unfold wproj in W. injection W as W1 W2 _. rewrite W1. split; [apply unpaid_flags; exact W2|reflexivity]. }
+      replace (e + match o with OEnd => 1 | _ => 0 end) with e by (destruct o; try lia; contradiction).
+      rewrite Q. split; [apply in_or_app; left; exact Hm|]. split.
+      * unfold bets_measure. rewrite Q, (ahead_app_in _ _ _ _ Hm).
+        rewrite (ahead_ext (pend_of (fst (step s o))) (pend_of s) (c_mqueue s) m) by (intros h Hh'; apply Hsame; apply in_or_app; right; exact Hh'). exact Hbm.
+      * unfold queued_parts. rewrite Q, Qb, app_assoc, (ahead_app_in _ (c_bqueue s ++ c_mqueue s) new m) by (apply in_or_app; right; exact Hm).
+        rewrite (ahead_ext (unpaid_of (fst (step s o))) (unpaid_of s) _ m) by (intros h Hh'; apply Hsame; exact Hh'). exact Hq.
+  - (* m waits for payment: the argument of parts_phase *)
+    destruct (step_parts P HP HF s o m G Hh HPm ltac:(lia) Hm) as [L|[Hin' Hm']]; [left; exact L|right; right].
+    split; [exact Hin'|]. exists eA. split; [exact HeA|]. rewrite Hm'. destruct o; split; lia.
+Qed.
+
+Theorem stage_over_history ops1 m : Forall user_op ops1 -> In m (c_mqueue (run s0 ops1)) ->
+  forall ops2, Forall user_op ops2 ->
+  stage (run s0 (ops1 ++ ops2)) m (bets_measure (run s0 ops1) m) (queued_parts (run s0 ops1) m) (count_end ops2).
+Proof.
+  intros H1 Hm ops2. induction ops2 as [|o pre IH] using rev_ind; intros H2.
+  - rewrite app_nil_r. right. left. split; [exact Hm|]. cbn [count_end]. split; lia.
+  - apply Forall_app in H2. destruct H2 as [H2 Ho]. specialize (IH H2).
+    assert (Hall : Forall user_op (ops1 ++ pre)) by (apply Forall_app; split; assumption).
+    rewrite app_assoc, run_snoc, count_end_app.
+    replace (count_end [o]) with (match o with OEnd => 1 | _ => 0 end) by (destruct o; reflexivity).
+    apply stage_step; [apply (reach_g2 P bk supply vault MP t0 sw sd HP HF B1 B2 B3 Hb _ Hall)|apply (reach_live P bk supply vault MP t0 sw sd HP HF B1 B2 B3 Hb HM _ Hall)|apply (reach_prm P bk supply vault MP t0 sw sd)|exact IH].
+Qed.
+
+(* a resolved market -- waiting for bet settlement with a1 pending bets queued up to and including its own, and a2 unpaid participations
+   queued up to and including its own over both queues -- is completely settled after (a1 / bet batch + 1) + (a2 / book batch + 1) end
+   blocks, whatever else happens in between *)
+Theorem settled_within ops1 ops2 m : Forall user_op ops1 -> Forall user_op ops2 -> In m (c_mqueue (run s0 ops1)) ->
+  (bets_measure (run s0 ops1) m / pr_bet_batch P + 1) + (queued_parts (run s0 ops1) m / pr_ob_batch P + 1) <= count_end ops2 ->
+  book_at_least BK_SETTLED (run s0 (ops1 ++ ops2)) m.
+Proof.
+  intros H1 H2 Hm Hc. set (a1 := bets_measure (run s0 ops1) m) in *. set (a2 := queued_parts (run s0 ops1) m) in *.
+  set (k := pr_bet_batch P) in *. set (kb := pr_ob_batch P) in *. set (e := count_end ops2) in *.
+  assert (Ha1 : 0 <= a1) by (apply ahead_nonneg; intros; apply pend_of_nonneg).
+  assert (Ha2 : 0 <= a2) by (apply ahead_nonneg; intros; apply unpaid_of_nonneg).
+  pose proof (Z.div_mod a1 k ltac:(lia)) as D1. pose proof (Z.mod_pos_bound a1 k Hk) as M1.
+  pose proof (Z.div_mod a2 kb ltac:(lia)) as D2. pose proof (Z.mod_pos_bound a2 kb Hkb) as M2.
+  pose proof (Z.div_pos a1 k Ha1 Hk) as Q1. pose proof (Z.div_pos a2 kb Ha2 Hkb) as Q2.
+  destruct (stage_over_history ops1 m H1 Hm ops2 H2) as [L|[(Hin & Hbm & _)|(Hin & eA & HeA & Hle & Hpm)]]; [exact L|exfalso|exfalso].
+  - fold a1 k e in Hbm.
+    assert (0 <= bets_measure (run s0 (ops1 ++ ops2)) m) by (apply ahead_nonneg; intros; apply pend_of_nonneg).
+    assert (k * (a1 / k + 1) <= k * e) by (apply Z.mul_le_mono_nonneg_l; lia). lia.
+  - fold a1 a2 k kb e in HeA, Hpm.
+    assert (0 <= parts_measure (run s0 (ops1 ++ ops2)) m) by (apply ahead_nonneg; intros; apply unpaid_of_nonneg).
+    assert (E1 : eA <= a1 / k + 1).
+    { destruct (Z.le_gt_cases eA (a1 / k + 1)) as [L|L]; [exact L|exfalso]. assert (k * (a1 / k + 2) <= k * eA) by (apply Z.mul_le_mono_nonneg_l; lia). lia. }
+    assert (kb * (a2 / kb + 1) <= kb * (e - eA)) by (apply Z.mul_le_mono_nonneg_l; lia). lia.
+Qed.
+End Bound.
+
+Theorem fully_settled_within P bk supply vault MP t0 sw sd :
+  pr_bet_fee P <= pr_bet_min P -> 0 <= pr_bet_fee P ->
+  bget bk POOL = 0 -> bget bk HOUSEFEE = 0 -> bget bk BETFEE = 0 -> (forall a, SUBBASE <= a -> 0 <= bget bk a) ->
+  mparams_valid MP = true -> 0 < pr_bet_batch P -> 0 < pr_ob_batch P ->
+  forall ops1 ops2 m, Forall user_op ops1 -> Forall user_op ops2 ->
+  In m (c_mqueue (run (init bk supply P vault MP t0 sw sd) ops1)) ->
+  (bets_measure (run (init bk supply P vault MP t0 sw sd) ops1) m / pr_bet_batch P + 1) +
+  (queued_parts (run (init bk supply P vault MP t0 sw sd) ops1) m / pr_ob_batch P + 1) <= count_end ops2 ->
+  exists x, get_ms (run (init bk supply P vault MP t0 sw sd) (ops1 ++ ops2)) m = Some x /\ bk_status (ms_book x) = BK_SETTLED /\
+    (forall p, In p (bk_parts (ms_book x)) -> p_settled p = true) /\
+    ms_pending x = [] /\ (forall b, In b (ms_bets x) -> b_status b = BS_SETTLED) /\
+    ~ In m (c_mqueue (run (init bk supply P vault MP t0 sw sd) (ops1 ++ ops2))) /\
+    ~ In m (c_bqueue (run (init bk supply P vault MP t0 sw sd) (ops1 ++ ops2))) /\
+    owed_pool x = 0 /\ owed_hfee x = 0 /\ owed_bfee x = 0.
+Proof.
+  intros HP HF B1 B2 B3 Hb HM Hk Hkb ops1 ops2 m H1 H2 Hm Hc.
+  apply (settled_means P bk supply vault MP t0 sw sd HP HF B1 B2 B3 Hb); [apply Forall_app; split; assumption|].
+  apply (settled_within P bk supply vault MP t0 sw sd HP HF B1 B2 B3 Hb HM Hk Hkb ops1 ops2 m H1 H2 Hm Hc).
+Qed.
